@@ -344,7 +344,7 @@ impl<'a> FnGen<'a> {
             prologue_at = Some(at);
             self.first_target = at + 1;
         }
-        let mut blocks = Vec::new();
+        let mut blocks: Vec<Term<Blk>> = Vec::new();
         for b in 0..n {
             let mut defs = Vec::new();
             let mut ctx = Ctx::default();
@@ -372,6 +372,37 @@ impl<'a> FnGen<'a> {
                 jmps = self.gen_jmps(b, b + 1 == n, &mut defs, &mut ctx, &mut ind);
             }
             blocks.push(Term { tid: blk_tid(b), term: Blk { defs, jmps, indirect_jmp_targets: ind } });
+        }
+        // planted pattern "register re-assigned by a load": x: r := e ; goto x+1 | x+1: r := [a] ; goto x+2 |
+        // x+2: uses r.  (Other jumps may still target these blocks.)
+        let p_plant = if self.mode == Mode::Memory { 70 } else { 12 };
+        if n >= self.first_target + 3 && self.rng.below(100) < p_plant {
+            use BinOpType::*;
+            let x = self.first_target + self.rng.below((n - self.first_target - 2) as u64) as usize;
+            let r = reg(*self.rng.pick(&GPRS), 8);
+            let others: Vec<&str> = GPRS.iter().cloned().filter(|g| *g != r.name).collect();
+            let o = reg(*self.rng.pick(&others), 8);
+            let e = match self.rng.below(3) {
+                0 => var(&o),
+                1 => bin(IntAdd, var(&o), cst(self.rng.range(1, 64), 8)),
+                _ => cst(self.rng.range(0, 1000), 8),
+            };
+            let ctx = Ctx::default();
+            let a = self.addr_expr(&ctx);
+            let k0 = blocks[x].term.defs.len();
+            blocks[x].term.defs.push(Term { tid: mk_tid(&format!("instr_{}_p{}", blk_addr(x), k0), &blk_addr(x)), term: Def::Assign { var: r.clone(), value: e } });
+            blocks[x].term.jmps = vec![Term { tid: mk_tid(&format!("instr_{}_j0", blk_addr(x)), &blk_addr(x)), term: Jmp::Branch(blk_tid(x + 1)) }];
+            blocks[x].term.indirect_jmp_targets.clear();
+            let k1 = blocks[x + 1].term.defs.len();
+            blocks[x + 1].term.defs.push(Term { tid: mk_tid(&format!("instr_{}_p{}", blk_addr(x + 1), k1), &blk_addr(x + 1)), term: Def::Load { var: r.clone(), address: a } });
+            blocks[x + 1].term.jmps = vec![Term { tid: mk_tid(&format!("instr_{}_j0", blk_addr(x + 1)), &blk_addr(x + 1)), term: Jmp::Branch(blk_tid(x + 2)) }];
+            blocks[x + 1].term.indirect_jmp_targets.clear();
+            let use_def = if self.rng.chance(1, 2) {
+                Def::Store { address: bin(IntSub, var(&sp_var()), cst(16, 8)), value: var(&r) }
+            } else {
+                Def::Assign { var: o.clone(), value: bin(IntXOr, var(&r), cst(0x55, 8)) }
+            };
+            blocks[x + 2].term.defs.insert(0, Term { tid: mk_tid(&format!("instr_{}_p", blk_addr(x + 2)), &blk_addr(x + 2)), term: use_def });
         }
         Term {
             tid: mk_tid("sub_1000", "1000"),
